@@ -140,8 +140,7 @@ def prep_obs(obs):
     return out
 
 
-def run(ctx):
-    t = ctx.tier == "thorough"
+def build_cases(ctx, t):
     # ---- 1. design level
     r = ctx.tlc("Tracer", cfg=MC_THOROUGH if t else MC_QUICK, workers=4, timeout=ctx.pick(400, 1500))
     if r.invariant or r.deadlock:
@@ -168,22 +167,30 @@ def run(ctx):
         rest = [c for c in cases if c not in small]
         ctx.rng.shuffle(rest)
         cases = small + rest[:1800]
+    rg = ctx.tlc("Tracer_Gen", cfg=RACE_GEN, timeout=600, count=False)
+    ctx.tlc_ok("Tracer_Gen (kill races)", rg)
+    rc = [c for c in ctx.read_ndjson(os.path.join(rg.dir, "cases.ndjson"))
+          if isinstance(c["dec"], dict) and any(o["k"] == "J" for o in c["script"][0]) and len(c["script"]) == 2 and c["script"][1]]
+    rc.sort(key=lambda c: json.dumps(c, sort_keys=True))
+    if not t:
+        ctx.rng.shuffle(rc)
+        pin = [c for c in rc if kinds_of(c) == "FJT/T" and set(c["dec"].values()) == {"allow"}]
+        rc = pin + [c for c in rc if c not in pin][:12]
+    for c in rc:
+        c["delay"] = {"tracer.seccomp": 15}
+    cases += rc
+    return cases, total_cases
+
+
+def run(ctx):
+    t = ctx.tier == "thorough"
     if ctx.replay and ctx.replay.get("case"):
         rc = ctx.replay["case"]
-        cases = [{"script": rc.get("script_ops") or [], "dec": rc.get("dec") or {}, "raw": "" if rc.get("script_ops") else rc.get("raw", "")}]
-    if not (ctx.replay and ctx.replay.get("case")):
-        rg = ctx.tlc("Tracer_Gen", cfg=RACE_GEN, timeout=600, count=False)
-        ctx.tlc_ok("Tracer_Gen (kill races)", rg)
-        rc = [c for c in ctx.read_ndjson(os.path.join(rg.dir, "cases.ndjson"))
-              if isinstance(c["dec"], dict) and any(o["k"] == "J" for o in c["script"][0]) and len(c["script"]) == 2 and c["script"][1]]
-        rc.sort(key=lambda c: json.dumps(c, sort_keys=True))
-        if not t:
-            ctx.rng.shuffle(rc)
-            pin = [c for c in rc if kinds_of(c) == "FJT/T" and set(c["dec"].values()) == {"allow"}]
-            rc = pin + [c for c in rc if c not in pin][:12]
-        for c in rc:
-            c["delay"] = {"tracer.seccomp": 15}
-        cases += rc
+        ops = rc.get("script_ops") or rc.get("script") or []
+        cases = [{"script": ops, "dec": rc.get("dec") or {}, "raw": "" if ops else rc.get("raw", ""), "delay": {"tracer.seccomp": 15}}]
+        total_cases = 1
+    else:
+        cases, total_cases = build_cases(ctx, t)
     for i, c in enumerate(cases):
         c["id"] = i + 1
         c["filter"] = "kill"
